@@ -6,13 +6,16 @@ RULE = ('exhaustive matrix for 1..3 (quick) / 1..4 (thorough) named parameters: 
         'full keyword rest x all 81 source patterns, and additionally every 9th point of the matrix with omissions) x '
         'ARGS / KWARGS_WITH_NONE / KWARGS_WITHOUT_NONE x strict on/off (n = 4: alternating) x all source patterns {plain, external with a value, external without}^n '
         '(EnvironmentVariableParameter and a harness-defined ExternalParameter alternate); method, async, number of defaulted parameters, '
-        'required, Parameter default and the position of a None / falsy value cycle with a counter.  Plus seeded structured programs as in '
-        'C12 without *args (keyword-only parameters, value types, chains, None and the falsy values 0, \'\', [], {}, (), False, 0.0, '
+        'required, Parameter default, the position of a None / falsy value and the NAMES of the parameters (a, b, c, d / an ordinary parameter '
+        'called args in first, middle or last position / kwargs / cls) cycle with a counter.  Plus seeded structured programs as in '
+        'C12 without VAR_POSITIONAL parameter (ordinary parameters called args, kwargs, cls, and self in a non-first position; histories of '
+        'calls on one decorated function object with re-entrant validators; keyword-only parameters, value types, chains, None and the falsy values 0, \'\', [], {}, (), False, 0.0, '
         'ignore_input, a keyword called self) and Flask sources (FlaskJson/Form/Get/Header/PathParameter under app.test_request_context).  non-trivial = the call carries an argument or a Parameter is declared')
 EXHAUSTIVE = {'quick': True, 'thorough': True}
-ASSUMPTIONS = ['functions without *args (the property excludes them); Parameter names distinct (duplicates are checked for correspondence only)',
+ASSUMPTIONS = ['functions without VAR_POSITIONAL parameter (`*args` under any name: the property excludes them); Parameter names distinct (duplicates are checked for correspondence only)',
                'external sources exercised: EnvironmentVariableParameter, a harness-defined ExternalParameter, and the Flask parameters (JSON body, form, query string, headers) under app.test_request_context',
-               '`self` is the first positional parameter of a method or does not occur at all (decidable guard selfIsReceiver of the theorem); a keyword `self` on a plain function is a recorded edge: correspondence only, counted in the evidence']
+               '`self` is the first positional parameter of a method or does not occur at all (decidable guard selfIsReceiver of the theorem); a keyword `self` on a plain function or an ordinary parameter called self in a non-first position is a recorded edge: correspondence only, counted in the evidence',
+               'no default value or annotation of the decorated function whose text contains `*args` (the code tests \'*args\' in str(signature))']
 TRUSTED = ['Python call binding (positional / keyword / defaults) is modelled (`bindCall`) and exercised on every case, not verified']
 
 
@@ -20,13 +23,15 @@ def cases(rng, tier):
     out = []
     if tier == 'quick':
         out += V.byname_matrix(rng, 1) + V.byname_matrix(rng, 2) + V.byname_matrix(rng, 3)
-        out += V.random_cases(rng, 24000, allow_varargs=False)
+        out += V.random_cases(rng, 22000, allow_varargs=False)
+        out += V.scenario_cases(rng, 1200, allow_varargs=False)
         out += V.flask_cases(rng, 4000)
     else:
         out += V.byname_matrix(rng, 1) + V.byname_matrix(rng, 2) + V.byname_matrix(rng, 3)
         out += V.byname_matrix(rng, 4, omissions=False, full_flags=False)
         out += V.byname_matrix(rng, 4, omissions=True, full_flags=False, stride=9)
         out += V.random_cases(rng, 60000, allow_varargs=False)
+        out += V.scenario_cases(rng, 8000, allow_varargs=False)
         out += V.flask_cases(rng, 30000)
     return out
 
@@ -40,6 +45,8 @@ extra_coverage = V.extra_coverage
 
 
 def judge(case, impl, model):
+    if 'calls' in case['c']:
+        return V.judge_scenario(case, impl, model, judge)        # every call of the history is judged like a single call
     corr, why = V.correspondence(case, impl, model)
     return {'corr': corr, 'why': why, 'pfail': V.pfail_byname(case, impl, model), 'finding': None,
             'nontrivial': V.nontrivial(case, impl), 'tag': V.tag_of(case, impl)}
